@@ -77,6 +77,9 @@ T = {
          "Start/handlers/pause/stop/periodic actions are reachable only from Agent._run; every foreign entry point (orchestrator API and timers, commands, comm-layer receive paths) reaches them only by posting messages. Discovery callbacks fired during wiring and data races on shared objects are not decided.", "ast parser + call graph", "4/C21"),
  "C22": ("ast protocol-chain rules: must-pass-through on every path (finished -> end_of_computation -> all-finished guard -> stop -> all-agents-stopped), who-may-write the run status, field/slot agreement of the value-collection chain",
          "Every link of the termination and value-reporting chains is present on all paths with agreeing message types, fields and guards; status TIMEOUT/STOPPED written only by the timeout/interruption handlers; DPOP finish points. Optimality and schedule-independence are not decided.", "ast parser", "4/C22"),
+ "C29": ("ast rules: positional alignment of names and value lists through the expansion, recursion on nested dicts, exactly-once key retention and option rendering",
+         "Narrow: the structural clauses of the batch parameter expansion (alignment, nested recursion, every key kept and listified, one rendered option per chosen value); the cartesian product itself is delegated to itertools.product and not decided.",
+         "ast parser", "4/C29"),
  "C28": ("ast rules: store-the-checked-value obligation, unknown-parameter raise, declaration/use agreement",
          "prepare_algo_params/check_param_value structure decided on all paths and every param_value use names a declared parameter.", "ast parser", "4/C28"),
  "C30": ("ast rules: R-API (set passed to random.sample), exactly-once constraint per edge",
@@ -86,7 +89,6 @@ T = {
 }
 
 NA = {
- "C29": "Batch parameter expansion is a value-level equality over run-time dictionaries delegated to itertools.product; no structural clause is a genuine necessary condition (e.g. removing sorted() keeps the order deterministic), so any static rule would also fire on behaviour-preserving edits. See DESIGN.md section 8.",
 }
 
 
